@@ -497,6 +497,11 @@ fn handle(st: &mut State, line: &str) -> String {
                 (ssa_of(&st.progs[&id]).clone(), f[2].to_string())
             };
             let path = std::path::PathBuf::from(path);
+            // the target already holds an older, longer export: the new export has to replace it completely
+            let stale: String = std::iter::once("4000 4002\n2 1 1\n1 1\n\n".to_string())
+                .chain((0..4000).map(|k| format!("2 1 {} {} {} XOR\n", k, k + 1, k + 2)))
+                .collect();
+            std::fs::write(&path, stale).unwrap();
             match circ.format_as_bristol(&path) {
                 Err(e) => format!("err\texport\t{}", hex(&format!("{e:?}"))),
                 Ok(()) => {
